@@ -48,6 +48,8 @@ pub struct Ev {
 pub const NOLOC: u16 = u16::MAX;
 pub const CELL_BASE: u16 = 1000;
 pub const ARC_CELL_BASE: u16 = 2000;
+pub const TLS_CELL_BASE: u16 = 3000;
+pub const LAZY_CELL_BASE: u16 = 4000;
 /// pseudo thread id of initialisation events
 pub const INIT_TID: u8 = 255;
 
